@@ -545,6 +545,7 @@ def run(P, R, tier):
     isoweights_rule(P, R)
     xstate_rule(P, R)
     dlhomog_rule(P, R)
+    addmembers_rule(P, R)
     unitfamilies_rule(P, R)
     spreaddefaults_rule(P, R)
     gfw_rule(P, R)
@@ -919,3 +920,54 @@ def dlhomog_rule(P, R):
             R.violation(RULE, inst, "`%s` is %s in the extensive quantities, degree %d is required: the diffuse-layer term depends on the size of the system (water mass), "
                         "results change when everything is scaled by a common factor" % (T.text(e)[:70], "not homogeneous" if d is None else "of degree %d" % d, want),
                         file=f["file"], line=line, function=f["q"])
+
+
+ADDMEMBERS_EXEMPT = {
+    # class: {member: why add() need not carry it}
+    "cxxSurface": {"new_def": "a mixture is a calculated entity: the constructor's false stands", "tidied": "set by tidy_surface for the result",
+                   "totals": "recomputed from the components (totalize) after the mix"},
+    "cxxExchange": {"new_def": "as for surfaces", "totals": "recomputed (totalize)",
+                    "solution_equilibria": "a mixture is not to be equilibrated with a solution again: the constructor's false stands",
+                    "n_solution": "goes with solution_equilibria"},
+    "cxxSSassemblage": {"new_def": "as for surfaces", "totals": "recomputed (totalize)"},
+    "cxxPPassemblage": {"new_def": "as for surfaces", "assemblage_totals": "recomputed (totalize)"},
+    "cxxKinetics": {"totals": "recomputed"},
+}
+
+
+def addmembers_rule(P, R):
+    """"Mixing a solution with itself ... gives the same results" - for reactants: a *_MIX of 1.0 x one entity is that entity.  The add()
+    function of each container class builds the mixture member by member, so a data member it never mentions keeps the default of an
+    empty object: cxxSurface::add left out calc_DDL_viscosity and Donnan_factors, and SURFACE_MIX of one `-donnan ... viscosity calc`
+    surface had another diffuse-layer composition.  Every non-static data member of the class must be referenced in add() or be listed,
+    with the reason, among the members that are recomputed or deliberately reset."""
+    RULE = "C15.addmembers"
+    R.rule(RULE, "container classes: add() mentions every data member (or the member is recomputed / deliberately reset)", minimum=40)
+    n = 0
+    for cls, exempt in sorted(ADDMEMBERS_EXEMPT.items()):
+        rec = P.records.get(cls)
+        fs = [g for g in P.fns_named(cls + "::add") if g.get("body")]
+        if rec is None or not fs:
+            R.anchor_missing(RULE, "%s::add not found" % cls)
+            continue
+        seen = set()
+        for g in fs:
+            for x in T.walk(g["body"]):
+                if x[0] == "Member" and x[2].startswith(cls + "::") and T.is_node(x[3]) and x[3][0] == "This":
+                    seen.add(x[2].split("::")[-1])
+        names = [fld["name"] for fld in rec["fields"] if not fld.get("static")]
+        for nm in exempt:
+            if nm not in names:
+                R.anchor_missing(RULE, "%s: exempt member %s no longer exists" % (cls, nm))
+        for nm in names:
+            n += 1
+            inst = "%s::%s" % (cls, nm)
+            if nm in seen:
+                R.ok(RULE, inst, "handled in add()")
+            elif nm in exempt:
+                R.ok(RULE, inst, "not carried: " + exempt[nm])
+            else:
+                R.violation(RULE, inst, "%s::add never mentions the data member `%s`: a mixture (also of 1.0 x one entity) has the default value instead of the value of its "
+                            "parts" % (cls, nm), file=fs[0]["file"], line=fs[0]["line"], function=fs[0]["q"])
+    if n < 40:
+        R.anchor_missing(RULE, "only %d data members examined" % n)
